@@ -92,7 +92,7 @@ func TestVerifC18CloseWaiter(t *testing.T) {
 			if aerr != nil {
 				ev.Err = aerr.Error()
 			}
-		case <-time.After(3 * time.Second):
+		case <-time.After(15 * time.Second):
 		}
 		select {
 		case <-closed:
